@@ -52,6 +52,21 @@ SPECS = [
          ],
          raises={'*': {'ensures': ["raised('e8') or raised('h1')"]}},
          serves=PROP),
+    dict(id='S-OmitTag-empty', text='A<p tal:omit-tag="e8" tal:content="e7"></p>B',
+         ensures=[
+             # one decision per element, also when the element has no children of its own
+             "evals(8) == 1", "evals(7) == 1",
+             "val(7) is DEFAULT() or not bool(val(8)) or S() == S0() + 'A' + "
+             "('' if quoted(val(7), None, '\\xad', None, None) is None else piece(quoted(val(7), None, '\\xad', None, None))) + 'B'",
+             "val(7) is DEFAULT() or bool(val(8)) or S() == S0() + 'A<p>' + "
+             "('' if quoted(val(7), None, '\\xad', None, None) is None else piece(quoted(val(7), None, '\\xad', None, None))) + '</p>B'",
+         ],
+         raises={'*': {'ensures': ["raised('e8') or raised('e7')"]}},
+         serves=PROP),
+    dict(id='S-OmitTag-selfclosing', text='A<p tal:omit-tag="e8" tal:content="e7"/>B',
+         ensures=["evals(8) == 1", "evals(7) == 1"],
+         raises={'*': {'ensures': ["raised('e8') or raised('e7')"]}},
+         serves=PROP),
     dict(id='S-Attribute', text='A<p k="s" tal:attributes="k e9">%s</p>B' % H1,
          ensures=[
              "evals(9) == 1", "trace('e9', 'h1')",
